@@ -75,6 +75,13 @@ var defaultPure = []string{
 	"google.golang.org/protobuf/encoding/protojson.", "google.golang.org/protobuf/proto.", "(*github.com/bmeg/grip/log.",
 	"(error).Error", "error.Error", "github.com/mitchellh/hashstructure/v2.", "encoding/binary.", "(encoding/binary.", "os.Getenv",
 	"github.com/kennygrant/sanitize.", "github.com/bmeg/grip/util/protoutil.",
+	// the SQL database is outside the model: its client library neither reads nor writes modelled state
+	// (the Scan family writes through its arguments and is therefore not in this list)
+	"(*database/sql.DB).Exec", "(*database/sql.DB).Query", "(*database/sql.DB).Begin", "(*database/sql.DB).Close", "(*database/sql.DB).Prepare",
+	"(*database/sql.Tx).Exec", "(*database/sql.Tx).Query", "(*database/sql.Tx).Prepare", "(*database/sql.Tx).Commit", "(*database/sql.Tx).Rollback",
+	"(*database/sql.Stmt).Exec", "(*database/sql.Stmt).Close", "(*database/sql.Rows).Next", "(*database/sql.Rows).Err", "(*database/sql.Rows).Close",
+	"(*github.com/jmoiron/sqlx.DB).Query", "(*github.com/jmoiron/sqlx.DB).NamedExec", "(*github.com/jmoiron/sqlx.Rows).Next",
+	"(*github.com/jmoiron/sqlx.Rows).Err", "(*github.com/jmoiron/sqlx.Rows).Close", "github.com/jmoiron/sqlx.Connect", "github.com/jmoiron/sqlx.Open",
 }
 
 func (v *Verifier) isPureName(name string) bool {
